@@ -136,7 +136,9 @@ def concatenate(signals, /, axis=0):
             axis = 1
         else:
             ref_cfs = signals[0].channel_freqs
-            if not all(u.allclose(ref_cfs, s.channel_freqs) for s in signals):
+            # Compare relative to the channel width, not the sky frequency.
+            kw_close = {"rtol": 0, "atol": 1e-5 * ref_cbw}
+            if not all(u.allclose(ref_cfs, s.channel_freqs, **kw_close) for s in signals):
                 raise ValueError("Signals have different frequency channels.")
             f0, f1 = ref_cfs[0], ref_cfs[-1]
 
